@@ -30,7 +30,7 @@ pub fn payload_token(op: &str, r: &mut Rng) -> String {
 }
 
 pub const SYM_OPS_BASIC: &[&str] = &["f", "g", "h", "k", "var", "c", "d", "u", "app", "lam", "sum", "let"];
-pub const SYM_OPS_ALL: &[&str] = &["f", "g", "h", "k", "q", "var", "c", "d", "e", "u", "w", "app", "pair", "lam", "sum", "let", "bb", "idx", "sb", "ite"];
+pub const SYM_OPS_ALL: &[&str] = &["f", "g", "h", "k", "q", "var", "c", "d", "e", "u", "w", "app", "pair", "lam", "sum", "let", "bb", "idx", "sb", "bsl", "ite"];
 
 /// names >= this are used for binders when shadowing is off (still < BOUND so they print as $p<k>)
 pub const BINDER_BASE: Name = 500;
